@@ -12,7 +12,7 @@ CASE_T = "C11.Corr.case"
 PROPS = ["C11/Props.v"]
 CLAUSE = {1: "read-not-mirrored", 2: "local-value", 3: "write-not-at-target", 4: "other-stored-changed",
           5: "outcome", 6: "failed-op-effect", 7: "forwarding"}
-X, Y, A, B, R, P_, PRE_, Q_, PARENT = 0, 1, 2, 3, 4, 10, 11, 12, 20
+X, Y, A, B, R, ITEMS, P_, PRE_, Q_, PARENT = 0, 1, 2, 3, 4, 5, 10, 11, 12, 20
 BASES = [X, Y, A, B, R]
 PREFIXES = [P_, PRE_, Q_]
 
@@ -152,9 +152,11 @@ def gen_config(rnd, ctx, depth=None):
     depth = depth or rnd.choice([1, 1, 2, 2, 3])
     classes, level_names = [], []
     # level 0: plain traits
-    names0 = [[X], [Y], [R]] + [[p, b] for p in PREFIXES for b in (X, Y)]
+    # plain attributes whose own name ends in "_items" are ordinary targets too (x_items, p_y_items, ...)
+    names0 = [[X], [Y], [R]] + [[p, b] for p in PREFIXES for b in (X, Y)] + \
+        [[X, ITEMS], [R, ITEMS]] + [[p, Y, ITEMS] for p in PREFIXES]
     rnd.shuffle(names0)
-    names0 = sorted(names0[:rnd.randint(5, 9)])
+    names0 = sorted(names0[:rnd.randint(5, 10)])
     traits = [[PARENT], ["Link"]]
     t0 = [[[PARENT], ["Link"]]]
     for n in names0:
@@ -175,15 +177,15 @@ def gen_config(rnd, ctx, depth=None):
             elif style == "Explicit":
                 n, r = [rnd.choice(BASES)], ["Explicit", tgt]
             else:
-                cands = [t for t in below if len(t) == 2 and (style == "Prefix" or t[0] == prefix)]
+                cands = [t for t in below if len(t) >= 2 and t[0] in PREFIXES and (style == "Prefix" or t[0] == prefix)]
                 if not cands:
-                    cands2 = [t for t in below if len(t) == 2]
+                    cands2 = [t for t in below if len(t) >= 2 and t[0] in PREFIXES]
                     if style == "Class" and cands2 and lvl == depth and not used:
                         pass
                     if not cands:
                         continue
                 tgt = rnd.choice(cands)
-                n, r = [tgt[1]], (["Prefix", [tgt[0]]] if style == "Prefix" else ["Class"])
+                n, r = list(tgt[1:]), (["Prefix", [tgt[0]]] if style == "Prefix" else ["Class"])
             if tuple(n) in used or n == [PARENT]:
                 continue
             used.add(tuple(n))
@@ -195,7 +197,7 @@ def gen_config(rnd, ctx, depth=None):
             used.add(tuple(tgt))
         # one or two plain traits so that chains may end here and prefixed targets exist for the level above
         for _ in range(rnd.randint(0, 2)):
-            n = rnd.choice([[p, b] for p in PREFIXES for b in (X, Y)] + [[A], [B]])
+            n = rnd.choice([[p, b] for p in PREFIXES for b in (X, Y)] + [[A], [B], [B, ITEMS], [P_, A, ITEMS]])
             if tuple(n) not in used:
                 used.add(tuple(n))
                 ts.append([n, ["Normal", rnd.choice(["KInt", "KRange", "KAny"]), rnd.randint(0, 50)]])
@@ -289,6 +291,18 @@ def corpus():
     cs.append(dict(classes=[par, ch2], objs=objs,
                    ops=[["Set", 0, [PRE_, X], 40], ["Set", 2, [X], 8], ["Set", 0, [PRE_, X], 41], ["Del", 2, [X]],
                         ["Set", 0, [PRE_, X], 42], ["Set", 2, [B], 20], ["Set", 0, [PRE_, B], 21], ["Set", 2, [B], 77]]))
+    # targets / deferring attributes whose own name ends in "_items" (plain Int, not containers): forwarded like any other
+    par_i = dict(prefix=[Q_], traits=[[[PARENT], ["Link"]], [[X, ITEMS], ["Normal", "KInt", 1]],
+                                      [[P_, Y, ITEMS], ["Normal", "KInt", 2]], [[PRE_, R, ITEMS], ["Normal", "KInt", 3]]])
+    ch_i = dict(prefix=[PRE_], traits=[[[PARENT], ["Link"]], [[X, ITEMS], ["Deleg", [PARENT], ["Same"], True]],
+                                       [[A], ["Deleg", [PARENT], ["Explicit", [X, ITEMS]], False]],
+                                       [[Y, ITEMS], ["Deleg", [PARENT], ["Prefix", [P_]], False]],
+                                       [[R, ITEMS], ["Deleg", [PARENT], ["Class"], True]]])
+    cs.append(dict(classes=[par_i, ch_i], objs=objs,
+                   ops=[["Set", 0, [X, ITEMS], 11], ["Set", 0, [P_, Y, ITEMS], 12], ["Set", 0, [PRE_, R, ITEMS], 13],
+                        ["Set", 2, [X, ITEMS], 14], ["Set", 2, [A], 15], ["Set", 0, [X, ITEMS], 16], ["Del", 2, [A]],
+                        ["Set", 0, [X, ITEMS], 17], ["Set", 2, [PARENT], {"obj": 1}], ["Set", 1, [X, ITEMS], 18],
+                        ["Set", 2, [R, ITEMS], 19]]))
     # finding: class-prefix rule at the second hop is applied with the ORIGIN's class prefix when writing
     mid = dict(prefix=[Q_], traits=[[[PARENT], ["Link"]], [[B], ["Deleg", [PARENT], ["Class"], True]],
                                     [[R], ["Deleg", [PARENT], ["Same"], False]]])
